@@ -16,6 +16,7 @@ from __future__ import annotations
 
 import calendar
 import contextlib
+from dataclasses import dataclass
 import copy
 import io
 import json
@@ -444,7 +445,13 @@ def zone_obj(z):
     return ZoneInfo(z)
 
 
-def build_pattern(r):
+@dataclass(frozen=True, kw_only=True)
+class SeriesEvent(ICalEvent):
+    """a user's event class whose occurrences name their series (so that one can be cancelled)"""
+    recurring_event_id: str | None = None
+
+
+def build_pattern(r, cls_override=None):
     """r: PR.gen_rule dict + extras / week_form / meta / cls / fixed"""
     x = r.get("extras") or NO_EXTRAS
     kw = {}
@@ -471,7 +478,9 @@ def build_pattern(r):
     meta = {}
     md = r.get("meta") or NO_META
     cls = Interval if r.get("cls") == "plain" else ICalEvent
-    if cls is ICalEvent:
+    if cls_override is not None:
+        cls = cls_override
+    if issubclass(cls, ICalEvent):
         for k in ("summary", "description", "uid", "location"):
             if md[k] is not None or r.get("pass_none"):
                 meta[k] = md[k]
@@ -1043,19 +1052,37 @@ class FilesFamily(IcalFamily):
             # written again after an occurrence was cancelled: the second file must carry the
             # cancellation (the timeline object has been written before; nothing may be remembered
             # from that)
-            a0, b0 = case["wins"][0]
-            occs = [o for o in m.fetch(a0, b0) if getattr(o, "recurring_event_id", None)]
-            if occs:
+            # (the same items in a timeline whose event class carries recurring_event_id, so that single
+            #  occurrences can be cancelled)
+            m5 = MemoryTimeline()
+            for it in case["items"]:
+                try:
+                    m5.add(build_static(it) if it["kind"] == "static" else build_pattern(it, SeriesEvent))
+                except Exception:
+                    pass
+            timeline_to_file(m5, path)
+            for a0, b0 in case["wins"]:
+                occs = [o for o in m5.fetch(a0, b0) if getattr(o, "recurring_event_id", None)][:40]
+                if not occs:
+                    continue
                 victim = occs[len(occs) // 2]
                 span = [victim.start, victim.end]
-                before = sum(1 for o in m2.fetch(a0, b0) if [o.start, o.end] == span)
-                if before and m.remove(victim)[0].success:
-                    timeline_to_file(m, path)
-                    m4 = file_to_timeline(path)
+                with contextlib.redirect_stderr(io.StringIO()):
+                    before = sum(1 for o in file_to_timeline(path).fetch(a0, b0) if [o.start, o.end] == span)
+                before_mem = sum(1 for o in occs if [o.start, o.end] == span)
+                # (only where the first round trip agreed on that span: disagreements are the business of
+                #  the slices compared above)
+                if before and before == before_mem and m5.remove(victim)[0].success:
+                    timeline_to_file(m5, path)
+                    with contextlib.redirect_stderr(io.StringIO()):
+                        m4 = file_to_timeline(path)
                     after = sum(1 for o in m4.fetch(a0, b0) if [o.start, o.end] == span)
-                    if after != before - 1:
+                    after_mem = sum(1 for o in m5.fetch(a0, b0) if [o.start, o.end] == span)
+                    if after != after_mem:
                         return {"err": f"an occurrence cancelled after the first write ({span}) is in the reloaded "
-                                       f"timeline {after} time(s) after the second write, {before} time(s) before"}
+                                       f"timeline {after} time(s) after the second write, in the written one "
+                                       f"{after_mem} time(s) (before: {before})"}
+                break
             for r in items:
                 r.pop("_obj", None)
             return dict(items=items, slices=slices, reloaded=reloaded)
